@@ -310,6 +310,13 @@ def order_docs():
     for d in (1, 2, 3):
         chains += list(itertools.product('gce$', repeat=d)) if d < 3 else [('g', 'g', 'g'), ('c', 'e', 'g'), ('e', 'c', 'c')]
 
+    def ok(chain):
+        for o, i in zip(chain, chain[1:]):
+            if (o, i) in (('$', '$'), ('e', 'g')):
+                return False          # R7: $ inside $ ; R2: a group at the start of an environment body is its argument
+        return True
+    chains = [c for c in chains if ok(c)]
+
     def build(chain):
         n = leaf
         for k in reversed(chain):
